@@ -1184,3 +1184,72 @@ Qed.
 
 Theorem waveform_absent_lemma m f c : ~ In c (p_sent f) -> waveform_at m f c = Ok None.
 Proof. intros H. apply position_None in H. unfold waveform_at. rewrite H. reflexivity. Qed.
+
+(* ================= H. corollaries stated on the input bytes ================= *)
+
+Theorem channel_lists_lemma macs m l f : bytes l -> pwb_decode macs m l = Ok f ->
+  p_sent f = mask_chan_list (le_val (subN l 24 10)) /\ p_over f = mask_chan_list (le_val (subN l 34 10)) /\
+  N.testbit (le_val (subN l 24 10)) 79 = false /\ N.testbit (le_val (subN l 34 10)) 79 = false.
+Proof.
+  intros Hb. rewrite pwb_decode_pure by assumption. unfold pwb_pure.
+  destruct (N.ltb_spec (lenN l) 56) as [L56|L56]; [discriminate|].
+  destruct (N.leb_spec 128 (nthN l 33)) as [H33|H33];
+  destruct (N.leb_spec 128 (nthN l 43)) as [H43|H43];
+  repeat (first [case_if | destruct (after_of_char _) | destruct (trigger_of _)]; try discriminate).
+  intros H. inversion H; subst. cbn [p_sent p_over].
+  split; [reflexivity|]. split; [reflexivity|].
+  split; apply (bound_high_bits _ 79); try lia; apply le10_top; (assumption || lia).
+Qed.
+
+Lemma blocks_bytes_nth req : forall cs ws k c w, length ws = length cs -> Forall (fun w => lenN w = req) ws ->
+  nth_error cs k = Some c -> nth_error ws k = Some w ->
+  subN (blocks_bytes req cs ws) (bpc_of req * N.of_nat k) (bpc_of req) = block_bytes req c w.
+Proof.
+  induction cs as [|c0 ct IH]; intros ws k c w Hl Hw Hc Hk; [destruct k; discriminate|].
+  destruct ws as [|w0 wt]; [destruct k; discriminate|]. cbn [length] in Hl. inversion Hw as [|? ? Hw1 Hw2]; subst.
+  cbn [blocks_bytes].
+  pose proof (block_bytes_lenN (lenN w0) c0 w0 eq_refl) as Lb.
+  destruct k as [|k]; cbn [nth_error] in Hc, Hk.
+  - inversion Hc; inversion Hk; subst. change (N.of_nat 0) with 0. rewrite N.mul_0_r.
+    apply subN_app_hd; [reflexivity|]. symmetry. exact Lb.
+  - rewrite subN_app_r by (rewrite Lb, Nat2N.inj_succ; lia).
+    replace (bpc_of (lenN w0) * N.of_nat (S k) - lenN (block_bytes (lenN w0) c0 w0)) with (bpc_of (lenN w0) * N.of_nat k)
+      by (rewrite Lb, Nat2N.inj_succ; lia).
+    apply IH; (lia || assumption).
+Qed.
+
+Lemma pwb_encode_split f : length (p_mac f) = 6%nat ->
+  exists H, lenN H = 52 /\ pwb_encode f = H ++ blocks_bytes (p_req f) (p_sent f) (pwb_waves f) ++ [204; 204; 204; 204].
+Proof.
+  intros Lm. unfold pwb_encode.
+  exists ([2; 65 + p_chip f; 0; p_trig f] ++ p_mac f ++ le_enc 2 (p_delay f) ++ le_enc 6 (p_ts f) ++ [0; 0] ++
+          le_enc 2 (p_last f) ++ le_enc 2 (p_req f) ++ le_enc 10 (chans_mask (p_sent f)) ++
+          le_enc 10 (chans_mask (p_over f)) ++ le_enc 4 (p_counter f) ++ le_enc 2 (p_fifo f) ++ [p_wdepth f; p_rdepth f]).
+  split.
+  - autorewrite with len. replace (lenN (p_mac f)) with 6 by (unfold lenN; lia).
+    change (N.of_nat 2) with 2. change (N.of_nat 6) with 6. change (N.of_nat 10) with 10. change (N.of_nat 4) with 4. lia.
+  - rewrite <- !app_assoc. reflexivity.
+Qed.
+
+(* the waveform returned for the k-th sent channel is read from the k-th block of the INPUT bytes, which is exactly
+   [readout index; count; samples; padding] at offset 52 + k * bytes_per_channel *)
+Theorem waveform_bytes_lemma macs m l f c : bytes l -> pwb_decode macs m l = Ok f -> In c (p_sent f) ->
+  exists k w, nth_error (p_sent f) (N.to_nat k) = Some c /\ waveform_at m f c = Ok (Some w) /\ lenN w = p_req f /\
+    subN l (52 + bpc_of (p_req f) * k) (bpc_of (p_req f)) = block_bytes (p_req f) c w.
+Proof.
+  intros Hb Hdec Hin. apply pwb_exact_lemma in Hdec; [|assumption]. destruct Hdec as [Hok El].
+  destruct (waveform_at_block_lemma macs m f c Hok Hin) as (k & w & Hc & Hw & Hwf & Lw).
+  exists (N.of_nat k), w. rewrite Nat2N.id. repeat split; try assumption.
+  destruct Hok as (_ & _ & _ & Lm & _ & _ & _ & _ & Hreq & Hsent & _ & _ & _ & _ & _ & Hws & _).
+  destruct (pwb_encode_split f Lm) as (H & LH & EH). rewrite El, EH.
+  set (req := p_req f) in *. set (sent := p_sent f) in *. set (ws := pwb_waves f) in *.
+  assert (Lws : length ws = length sent) by apply parse_blocks_length.
+  assert (Hwl : Forall (fun w => lenN w = req) ws).
+  { rewrite Forall_forall in *. intros w' Hw'. apply Hws. assumption. }
+  assert (Hk : (k < length sent)%nat) by (apply nth_error_Some; congruence).
+  assert (H2 : bpc_of req * N.of_nat k + bpc_of req <= bpc_of req * lenN sent).
+  { pose proof (N.mul_le_mono_l (N.of_nat k + 1) (lenN sent) (bpc_of req) ltac:(unfold lenN; lia)). lia. }
+  rewrite subN_app_r by lia. replace (52 + bpc_of req * N.of_nat k - lenN H) with (bpc_of req * N.of_nat k) by lia.
+  rewrite subN_app_l by (rewrite blocks_bytes_lenN by assumption; lia).
+  apply blocks_bytes_nth; assumption.
+Qed.
